@@ -21,7 +21,13 @@ Vec(p) == LET R == Run(p, InitR) IN
   [ prog |-> p, get |-> ViewJ(PeerView(R, FALSE)), head |-> ViewJ(PeerView(R, TRUE)),
     getTags |-> Tags(p, FALSE), headTags |-> Tags(p, TRUE) ]
 
-ASSUME ndJsonSerialize("vectors.ndjson", SetToSeq({ Vec(p) : p \in Programs }))
+ConfigRec == [ prog |-> <<"@configs">>, configs |-> ServerConfigs ]
+
+ASSUME ndJsonSerialize("vectors.ndjson", <<ConfigRec>> \o SetToSeq({ Vec(p) : p \in Programs }))
+
+\* pipelined batches: every pair of programs of length <= 1, every HEAD / non-HEAD combination
+ASSUME \A p1, p2 \in SeqsUpTo(Ops, 1) : \A h1, h2 \in BOOLEAN :
+         BatchOK(Run(p1, InitR), Run(p2, InitR), h1, h2)
 
 \* one initial state per emitted program: the state machine's variables hold the program and
 \* the builder state it reaches, so TLC's invariant checking ranges over all of them
